@@ -408,7 +408,14 @@ func (u *Unit) specBin(e *SExpr, ctx *specCtx) (Val, error) {
 func (u *Unit) specSel(e *SExpr, ctx *specCtx) (Val, error) {
 	// package-qualified name?
 	if id := e.Args[0]; id.Op == "ident" {
-		if _, bound := ctx.env[id.Name]; !bound && !strings.HasPrefix(id.Name, "$") {
+		_, bound := ctx.env[id.Name]
+		if !bound && ctx.local != nil && !strings.HasPrefix(id.Name, "$") {
+			// a source-level local variable shadows a package of the same name (e.g. a local called `set` or `connection`)
+			if _, ok := ctx.local(id.Name, ctx.cur); ok {
+				bound = true
+			}
+		}
+		if !bound && !strings.HasPrefix(id.Name, "$") {
 			if p := u.eng.pkgByName(id.Name, ctx.pkgOf()); p != nil {
 				if ctx.pkgOf() == nil || ctx.pkgOf().Scope().Lookup(id.Name) == nil {
 					obj := p.Scope().Lookup(e.Name)
